@@ -9,6 +9,7 @@ package dastard
 // packets package; Triangle/SimPulse: real Configure+Sample; Roach: nchan set directly, since
 // samplePacket needs a UDP socket). For a subset the real WriteControl START / PublishData / STOP
 // is driven into a temp dir and every file header is decoded with the independent decoders.
+// Every source type is also prepared twice on the same object without a Stop in between (family D).
 
 import (
 	"fmt"
@@ -542,18 +543,8 @@ func v19AbacoRun(r *vexp.Runner, x *vexp.X, layout []GroupIndex, split int, file
 	} else {
 		x.Logf("Abaco groups (Firstchan,Nchan) in arrival order %v ; first %d group(s) on producer 0, the rest on producer 1", layout, split)
 	}
-	as, err := NewAbacoSource()
-	if err != nil || as == nil {
-		as = new(AbacoSource)
-		as.name = "Abaco"
-		as.subframeDivisions = abacoSubframeDivisions
-	}
-	as.producers = nil
-	if split >= len(layout) {
-		as.producers = append(as.producers, &v19Producer{pk: v19Packets(layout)})
-	} else {
-		as.producers = append(as.producers, &v19Producer{pk: v19Packets(layout[:split])}, &v19Producer{pk: v19Packets(layout[split:])})
-	}
+	as := v19AbacoNew()
+	as.producers = v19AbacoProducers(layout, split)
 	nstreams := 0
 	for _, g := range layout {
 		nstreams += g.Nchan
@@ -590,12 +581,7 @@ func v19AbacoRun(r *vexp.Runner, x *vexp.X, layout []GroupIndex, split int, file
 	}
 	sorted := append([]GroupIndex{}, layout...)
 	sort.Slice(sorted, func(i, j int) bool { return sorted[i].Firstchan < sorted[j].Firstchan })
-	var truth []v19Truth
-	for col, g := range sorted {
-		for row := 0; row < g.Nchan; row++ {
-			truth = append(truth, v19Truth{pixel: [3]int{col, 0, row}, prefix: "chan", row: row, col: col, rows: g.Nchan, cols: len(sorted)})
-		}
-	}
+	truth := v19AbacoTruth(layout)
 	if v, c := v19Identity(x, ds, truth); v != "" {
 		res.Violation, res.Class = fmt.Sprintf("Abaco layout %v split %d: ", layout, split)+v, "abaco-"+c
 		return res
@@ -710,6 +696,385 @@ func v19SimpleRun(r *vexp.Runner, x *vexp.X, kind string, nchan int) vexp.Result
 }
 
 // ---------------------------------------------------------------------------------------------
+// D. prepared twice: the same source object goes through its preparation for configuration A and,
+// without any Stop in between (the run ended on its own, or the Start failed after PrepareChannels),
+// again for configuration B. What it reports afterwards must be what a fresh object prepared with B
+// alone reports, and must pass every oracle of the single-preparation families.
+
+// v19Prep is one source object of some type together with the way the harness configures it.
+type v19Prep interface {
+	// apply puts configuration cfg (an index into the family's menu) on this object and drives the
+	// real preparation up to and including PrepareChannels; an error means the configuration was rejected.
+	apply(x *vexp.X, cfg int) error
+	source() *AnySource
+	truth(cfg int) []v19Truth
+}
+
+type v19Twicer struct {
+	kind  string
+	menu  []string // labels of the configuration menu
+	fresh func() v19Prep
+}
+
+// v19Snapshot lists everything about channel identity that a prepared source reports.
+func v19Snapshot(ds *AnySource) [][2]string {
+	var rc []string
+	for _, c := range ds.rowColCodes {
+		rc = append(rc, fmt.Sprintf("r%d/%d,c%d/%d", c.row(), c.rows(), c.col(), c.cols()))
+	}
+	var procs []string
+	for _, dsp := range ds.processors {
+		procs = append(procs, fmt.Sprintf("%d:%s:%d", dsp.channelIndex, dsp.Name, dsp.ChannelNumber))
+	}
+	return [][2]string{
+		{"Nchan()", fmt.Sprint(ds.Nchan())},
+		{"ChannelNames()", fmt.Sprint(ds.ChannelNames())},
+		{"channel numbers", fmt.Sprint(ds.chanNumbers)},
+		{"ChanGroups()", fmt.Sprint(ds.ChanGroups())},
+		{"row/column codes", fmt.Sprint(rc)},
+		{"subframe offsets", fmt.Sprint(ds.subframeOffsets)},
+		{"channels per pixel", fmt.Sprint(ds.channelsPerPixel)},
+		{"processors (index:name:number)", fmt.Sprint(procs)},
+	}
+}
+
+func v19TwiceRun(r *vexp.Runner, x *vexp.X, tw v19Twicer, a, b int, fileLimit int) vexp.Result {
+	what := fmt.Sprintf("%s source prepared for A=%s and then, without Stop, for B=%s", tw.kind, tw.menu[a], tw.menu[b])
+	x.Logf("%s", what)
+	obj := tw.fresh()
+	errA := obj.apply(x, a)
+	ranA := false
+	if errA != nil {
+		x.Logf("preparation A is rejected: %v", errA)
+	} else if x.Choose(2) == 1 {
+		// the first preparation went on into a run that ended on its own (no Stop)
+		x.Steps++
+		if err := obj.source().PrepareRun(v19npre, v19nsamp); err != nil {
+			return vexp.Result{Violation: what + ": PrepareRun after preparation A failed: " + err.Error(), Class: "preparerun-error"}
+		}
+		v19Close(obj.source())
+		ranA = true
+		x.Logf("preparation A accepted, PrepareRun done, the run ends without Stop; groups now %v", obj.source().ChanGroups())
+	} else {
+		x.Logf("preparation A accepted, the Start fails after PrepareChannels; groups now %v", obj.source().ChanGroups())
+	}
+	errB := obj.apply(x, b)
+	ref := tw.fresh()
+	errF := ref.apply(x, b)
+	if (errB == nil) != (errF == nil) {
+		return vexp.Result{Violation: fmt.Sprintf("%s: the second preparation gives error %v, a fresh object prepared with B alone gives error %v", what, errB, errF),
+			Class: tw.kind + "-prepare-twice-differs-from-fresh"}
+	}
+	if errB != nil {
+		x.Logf("preparation B is rejected, as on a fresh object: %v", errB)
+		return vexp.Result{Outcome: "twice-" + tw.kind + "|rejected"}
+	}
+	ds, fs := obj.source(), ref.source()
+	truth := obj.truth(b)
+	res := vexp.Result{Nontrivial: errA == nil && a != b && len(truth) >= 2}
+	x.Steps += 2
+	if err := ds.PrepareRun(v19npre, v19nsamp); err != nil {
+		res.Violation, res.Class = what+": PrepareRun failed after the second preparation was accepted: "+err.Error(), "preparerun-error"
+		return res
+	}
+	defer v19Close(ds)
+	pub := v19Private(ds)
+	if err := fs.PrepareRun(v19npre, v19nsamp); err != nil {
+		res.Violation, res.Class = what+": PrepareRun failed on the fresh object: "+err.Error(), "preparerun-error"
+		return res
+	}
+	defer v19Close(fs)
+	res.Outcome = v19Outcome("twice-"+tw.kind, ds)
+	got, want := v19Snapshot(ds), v19Snapshot(fs)
+	for i := range want {
+		x.Logf("   %-32s twice: %s", want[i][0], got[i][1])
+		if got[i][1] != want[i][1] {
+			x.Logf("   %-32s fresh: %s", want[i][0], want[i][1])
+			res.Violation = fmt.Sprintf("%s (first preparation ran PrepareRun: %v): %s is %s, a fresh object prepared with B alone reports %s", what, ranA, want[i][0], got[i][1], want[i][1])
+			res.Class = tw.kind + "-prepare-twice-differs-from-fresh"
+			return res
+		}
+	}
+	if ds.subframeDivisions != fs.subframeDivisions {
+		// subframe timing is not part of C19 (see the assumptions); counted only
+		r.Count("twice_"+tw.kind+"_subframe_divisions_differ_from_fresh", 1)
+		x.Logf("   note: subframe divisions %d, fresh object %d", ds.subframeDivisions, fs.subframeDivisions)
+	}
+	if v, c := v19Identity(x, ds, truth); v != "" {
+		res.Violation, res.Class = what+": "+v, tw.kind+"-twice-"+c
+		return res
+	}
+	if len(truth) <= fileLimit {
+		if v, c := v19Files(x, ds, pub, true); v != "" {
+			res.Violation, res.Class = what+": "+v, "twice-"+c
+			return res
+		}
+		r.Count("executions_with_files", 1)
+	}
+	r.Count("executions_prepared_twice", 1)
+	return res
+}
+
+// Lancero
+
+type v19LanceroCfg struct {
+	cards                    []v19Card
+	first, sepCols, sepCards int
+}
+
+type v19LanceroPrep struct {
+	ls   *LanceroSource
+	menu []v19LanceroCfg
+}
+
+func (p *v19LanceroPrep) source() *AnySource { return &p.ls.AnySource }
+func (p *v19LanceroPrep) apply(x *vexp.X, cfg int) error {
+	c := p.menu[cfg]
+	ls := p.ls
+	ls.nchan = 0
+	ls.active = nil
+	for _, k := range c.cards {
+		ls.active = append(ls.active, &LanceroDevice{devnum: k.devnum, ncols: k.ncols, nrows: k.nrows})
+		ls.nchan += 2 * k.ncols * k.nrows
+	}
+	ls.firstRowChanNum, ls.chanSepColumns, ls.chanSepCards = c.first, c.sepCols, c.sepCards
+	x.Steps++
+	return ls.PrepareChannels()
+}
+func (p *v19LanceroPrep) truth(cfg int) []v19Truth {
+	var truth []v19Truth
+	for k, c := range p.menu[cfg].cards {
+		for col := 0; col < c.ncols; col++ {
+			for row := 0; row < c.nrows; row++ {
+				t := v19Truth{pixel: [3]int{k, col, row}, row: row, col: col, rows: c.nrows, cols: c.ncols}
+				t.prefix = "err"
+				truth = append(truth, t)
+				t.prefix = "chan"
+				truth = append(truth, t)
+			}
+		}
+	}
+	return truth
+}
+
+func v19LanceroTwicer() v19Twicer {
+	var menu []v19LanceroCfg
+	var labels []string
+	for gi, cards := range [][]v19Card{{{0, 1, 2}}, {{0, 2, 3}}, {{0, 1, 2}, {1, 1, 2}}, {{1, 2, 2}, {3, 2, 3}}} {
+		maxRows, sum := 0, 0
+		for _, c := range cards {
+			if c.nrows > maxRows {
+				maxRows = c.nrows
+			}
+			sum += c.ncols * c.nrows
+		}
+		first := []int{0, 1, 7, 0}[gi]
+		// (ChanSepColumns, ChanSepCards): sequential, column-separated, both separated, card-separated, two rejected ones
+		for _, sp := range [][2]int{{0, 0}, {maxRows, 0}, {maxRows + 3, (maxRows+3)*cards[0].ncols + 10}, {0, sum}, {maxRows - 1, 0}, {0, 1}} {
+			c := v19LanceroCfg{cards: cards, first: first, sepCols: sp[0], sepCards: sp[1]}
+			menu = append(menu, c)
+			labels = append(labels, fmt.Sprintf("[%s sepCols=%d sepCards=%d]", strings.TrimPrefix(v19LanceroCase{cards, first}.id(), "lancero/"), sp[0], sp[1]))
+		}
+	}
+	return v19Twicer{kind: "lancero", menu: labels, fresh: func() v19Prep {
+		ls := &LanceroSource{}
+		ls.name = "Lancero"
+		ls.sampleRate = 1000
+		ls.samplePeriod = vPeriod
+		return &v19LanceroPrep{ls: ls, menu: menu}
+	}}
+}
+
+// Abaco
+
+type v19AbacoCfg struct {
+	layout []GroupIndex
+	split  int
+}
+
+type v19AbacoPrep struct {
+	as   *AbacoSource
+	menu []v19AbacoCfg
+}
+
+func v19AbacoNew() *AbacoSource {
+	as, err := NewAbacoSource()
+	if err != nil || as == nil {
+		as = new(AbacoSource)
+		as.name = "Abaco"
+		as.subframeDivisions = abacoSubframeDivisions
+	}
+	return as
+}
+
+func v19AbacoProducers(layout []GroupIndex, split int) []PacketProducer {
+	if split >= len(layout) {
+		return []PacketProducer{&v19Producer{pk: v19Packets(layout)}}
+	}
+	return []PacketProducer{&v19Producer{pk: v19Packets(layout[:split])}, &v19Producer{pk: v19Packets(layout[split:])}}
+}
+
+func v19AbacoTruth(layout []GroupIndex) []v19Truth {
+	sorted := append([]GroupIndex{}, layout...)
+	sort.Slice(sorted, func(i, j int) bool { return sorted[i].Firstchan < sorted[j].Firstchan })
+	var truth []v19Truth
+	for col, g := range sorted {
+		for row := 0; row < g.Nchan; row++ {
+			truth = append(truth, v19Truth{pixel: [3]int{col, 0, row}, prefix: "chan", row: row, col: col, rows: g.Nchan, cols: len(sorted)})
+		}
+	}
+	return truth
+}
+
+func (p *v19AbacoPrep) source() *AnySource { return &p.as.AnySource }
+func (p *v19AbacoPrep) apply(x *vexp.X, cfg int) error {
+	c := p.menu[cfg]
+	p.as.producers = v19AbacoProducers(c.layout, c.split)
+	x.Steps++
+	if err := p.as.Sample(); err != nil {
+		return err
+	}
+	x.Steps++
+	return p.as.PrepareChannels()
+}
+func (p *v19AbacoPrep) truth(cfg int) []v19Truth { return v19AbacoTruth(p.menu[cfg].layout) }
+
+func v19AbacoTwicer() v19Twicer {
+	menu := []v19AbacoCfg{
+		{[]GroupIndex{{0, 1}}, 1},
+		{[]GroupIndex{{0, 3}}, 1},
+		{[]GroupIndex{{2, 2}}, 1},
+		{[]GroupIndex{{0, 2}, {2, 2}}, 2},
+		{[]GroupIndex{{4, 1}, {0, 3}}, 1},
+		{[]GroupIndex{{0, 1}, {2, 1}, {6, 3}}, 2},
+		{[]GroupIndex{{0, 3}, {2, 2}}, 2}, // overlapping: rejected
+		{[]GroupIndex{{1, 2}, {4, 3}}, 1},
+		{[]GroupIndex{{6, 3}, {0, 1}}, 2},
+	}
+	var labels []string
+	for _, c := range menu {
+		l := fmt.Sprintf("[groups %v on one producer]", c.layout)
+		if c.split < len(c.layout) {
+			l = fmt.Sprintf("[groups %v, the first %d on producer 0, the rest on producer 1]", c.layout, c.split)
+		}
+		labels = append(labels, l)
+	}
+	return v19Twicer{kind: "abaco", menu: labels, fresh: func() v19Prep { return &v19AbacoPrep{as: v19AbacoNew(), menu: menu} }}
+}
+
+// generic / Triangle / SimPulse / Roach
+
+type v19SimplePrep struct {
+	kind string
+	menu [][]int // channel counts (Roach: per device)
+	any  *AnySource
+	ts   *TriangleSource
+	ps   *SimPulseSource
+	rs   *RoachSource
+}
+
+func (p *v19SimplePrep) total(cfg int) int {
+	n := 0
+	for _, k := range p.menu[cfg] {
+		n += k
+	}
+	return n
+}
+func (p *v19SimplePrep) source() *AnySource {
+	switch p.kind {
+	case "triangle":
+		return &p.ts.AnySource
+	case "simpulse":
+		return &p.ps.AnySource
+	case "roach":
+		return &p.rs.AnySource
+	}
+	return p.any
+}
+func (p *v19SimplePrep) apply(x *vexp.X, cfg int) error {
+	nchan := p.total(cfg)
+	switch p.kind {
+	case "triangle":
+		x.Steps += 3
+		if err := p.ts.Configure(&TriangleSourceConfig{Nchan: nchan, SampleRate: 10000, Min: 100, Max: 200}); err != nil {
+			return err
+		}
+		if err := p.ts.Sample(); err != nil {
+			return err
+		}
+		return p.ts.PrepareChannels()
+	case "simpulse":
+		x.Steps += 3
+		if err := p.ps.Configure(&SimPulseSourceConfig{Nchan: nchan, SampleRate: 10000, Pedestal: 1000, Amplitudes: []float64{3000, 5000}, Nsamp: 100}); err != nil {
+			return err
+		}
+		if err := p.ps.Sample(); err != nil {
+			return err
+		}
+		return p.ps.PrepareChannels()
+	case "roach":
+		// what RoachSource.Sample does, minus reading one UDP packet per device
+		p.rs.active = nil
+		p.rs.nchan = 0
+		for _, k := range p.menu[cfg] {
+			p.rs.active = append(p.rs.active, &RoachDevice{nchan: k})
+			p.rs.nchan += k
+		}
+		p.rs.sampleRate = 10000
+		p.rs.samplePeriod = 100 * time.Microsecond
+		x.Steps++
+		return p.rs.PrepareChannels()
+	}
+	p.any.nchan = nchan
+	x.Steps++
+	if err := p.any.PrepareChannels(); err != nil {
+		return err
+	}
+	// AnySource.PrepareChannels leaves the row/column codes to the concrete source (as vNewSource does)
+	p.any.rowColCodes = make([]RowColCode, nchan)
+	for i := range p.any.rowColCodes {
+		p.any.rowColCodes[i] = rcCode(0, i, 1, nchan)
+	}
+	return nil
+}
+func (p *v19SimplePrep) truth(cfg int) []v19Truth {
+	var truth []v19Truth
+	for i := 0; i < p.total(cfg); i++ {
+		truth = append(truth, v19Truth{pixel: [3]int{0, 0, i}, prefix: "chan", rows: -1})
+	}
+	return truth
+}
+
+func v19SimpleTwicer(kind string) v19Twicer {
+	menu := [][]int{{1}, {2}, {3}, {4}}
+	if kind == "roach" {
+		menu = append(menu, []int{1, 2}, []int{2, 2}, []int{3, 1})
+	}
+	var labels []string
+	for _, m := range menu {
+		if kind == "roach" {
+			labels = append(labels, fmt.Sprintf("[devices with %v channels]", m))
+		} else {
+			labels = append(labels, fmt.Sprintf("[%d channels]", m[0]))
+		}
+	}
+	return v19Twicer{kind: kind, menu: labels, fresh: func() v19Prep {
+		p := &v19SimplePrep{kind: kind, menu: menu}
+		switch kind {
+		case "triangle":
+			p.ts = NewTriangleSource()
+		case "simpulse":
+			p.ps = NewSimPulseSource()
+		case "roach":
+			p.rs, _ = NewRoachSource()
+		default:
+			p.any = &AnySource{name: "verif", sampleRate: 1000.0, samplePeriod: vPeriod}
+		}
+		return p
+	}}
+}
+
+// ---------------------------------------------------------------------------------------------
 
 func TestVerifC19(t *testing.T) {
 	r := vexp.NewRunner("C19")
@@ -720,12 +1085,12 @@ func TestVerifC19(t *testing.T) {
 	devsets := [][]int{{0}, {0, 1}, {1, 3}, {1, 0}}
 	maxCols, maxRows := 3, 4
 	firsts := []int{0, 1, 7}
-	lanceroFiles, abacoFiles := 12, 6
+	lanceroFiles, abacoFiles, twiceFiles := 12, 6, 8
 	if thorough {
 		devsets = append(devsets, []int{2}, []int{0, 1, 2})
 		maxCols, maxRows = 4, 5
 		firsts = append(firsts, 100)
-		lanceroFiles, abacoFiles = 24, 12
+		lanceroFiles, abacoFiles, twiceFiles = 24, 12, 20
 	}
 	// B. Abaco
 	var gtypes []GroupIndex
@@ -743,9 +1108,13 @@ func TestVerifC19(t *testing.T) {
 	}
 	r.SetBound(fmt.Sprintf("Lancero: active device lists %v x 1..%d columns x 1..%d rows (equal on all cards, plus card k with 2+k rows) x FirstRow %v x ChanSepColumns {-1,0,R-1,R,R+3} x ChanSepCards {-1,0,span-1,span,span+10}, "+
 		"files (LJH22, LJH22+LJH3) for accepted configurations with <= %d streams; Abaco: every set of 1..3 distinct groups out of %d (Firstchan,Nchan) types (adjacent, gapped, overlapping, nested), both arrival orders of pairs, "+
-		"one producer or two, files for accepted layouts with <= %d streams; generic/Triangle/SimPulse/Roach sources with 1..4 channels with files",
-		devsets, maxCols, maxRows, firsts, lanceroFiles, len(gtypes), abacoFiles))
+		"one producer or two, files for accepted layouts with <= %d streams; generic/Triangle/SimPulse/Roach sources with 1..4 channels with files; "+
+		"prepared twice (same source object prepared for A, optionally PrepareRun, no Stop, prepared for B; compared with a fresh object prepared for B, all single-preparation oracles, LJH22+LJH3 files for <= %d streams): "+
+		"every ordered pair out of Lancero 4 geometries (1 card 1x2, 1 card 2x3, 2 cards 1x2, cards 1 and 3 with 2x2 and 2x3) x 6 separation settings (4 accepted, 2 rejected), "+
+		"9 Abaco layouts (1..3 groups, one or two producers, one overlapping), generic/Triangle/SimPulse 1..4 channels, Roach device lists [1] [2] [3] [4] [1 2] [2 2] [3 1]",
+		devsets, maxCols, maxRows, firsts, lanceroFiles, len(gtypes), abacoFiles, twiceFiles))
 	r.Note("RoachSource is prepared with nchan set directly (its Sample needs a UDP socket); Lancero geometry is set directly (sampleCard needs hardware)")
+	r.Note("prepared-twice Roach: active devices are RoachDevice values with nchan set and RoachSource.nchan their sum, as Sample computes it; a Lancero source prepared twice keeps the subframe divisions of its first preparation (counted, not part of C19)")
 
 	for _, devs := range devsets {
 		for ncols := 1; ncols <= maxCols; ncols++ {
@@ -798,6 +1167,21 @@ func TestVerifC19(t *testing.T) {
 			kind, nchan := kind, nchan
 			r.DFS(fmt.Sprintf("simple/%s/nchan=%d", kind, nchan), -1, func(x *vexp.X) vexp.Result {
 				return v19SimpleRun(r, x, kind, nchan)
+			})
+		}
+	}
+
+	// D. prepared twice, every ordered pair (A, B) of each menu
+	twicers := []v19Twicer{v19LanceroTwicer(), v19AbacoTwicer()}
+	for _, kind := range []string{"any", "triangle", "simpulse", "roach"} {
+		twicers = append(twicers, v19SimpleTwicer(kind))
+	}
+	for _, tw := range twicers {
+		for a := range tw.menu {
+			tw, a := tw, a
+			r.DFS(fmt.Sprintf("twice/%s/A=%d", tw.kind, a), -1, func(x *vexp.X) vexp.Result {
+				b := x.Choose(len(tw.menu))
+				return v19TwiceRun(r, x, tw, a, b, twiceFiles)
 			})
 		}
 	}
